@@ -65,3 +65,32 @@ def nr_roundtrip_listed(k: int, x: int, y: int) -> bool:
     # longer representative names (spaces, inner apostrophes, doubled apostrophes, non-ASCII) chosen by a
     # symbolic index: here the solver only picks the case; the real code runs on concrete names
     return _rt(NAMES[k], x, y, x + 1, y + 1)
+
+
+def rename_updates_ranges(new: str) -> bool:
+    """
+    pre: 1 <= len(new) <= 2 and all(c in ("a", "b", " ") for c in new)
+    post: _
+    """
+    # renaming a table updates the named ranges that point to it (and only those)
+    import lxml.etree as ET
+    from odfdo.table import Table
+    try:
+        new2 = _table_name_check(new)
+    except ValueError:
+        return done(True, False)
+    root = Element.from_tag(
+        "<office:document-content><office:body><office:spreadsheet>"
+        "<table:table table:name='t1'/><table:table table:name='zz'/><table:named-expressions/>"
+        "</office:spreadsheet></office:body></office:document-content>")
+    body = root.get_element("office:body/office:spreadsheet")
+    exprs = body.get_element("table:named-expressions")
+    exprs._Element__element.append(NamedRange("rng_a", (0, 0, 1, 1), "t1")._Element__element)
+    exprs._Element__element.append(NamedRange("rng_b", (1, 1, 2, 2), "zz")._Element__element)
+    table = body.get_elements("table:table")[0]
+    table.name = new
+    r1 = body.get_named_range("rng_a")
+    r2 = body.get_named_range("rng_b")
+    ok = table.name == new2 and r1.table_name == new2 and r1.crange == (0, 0, 1, 1) and r2.table_name == "zz" and r2.crange == (1, 1, 2, 2)
+    found = table.get_named_ranges(table_name=new2)
+    return done(ok and len(found) == 1 and found[0].name == "rng_a")
